@@ -53,8 +53,11 @@ class Stats:
         self.checks = 0
         self.checks_discharged = 0
         self.twins = 0
+        self.cross = {}
 
     def merge(self, o: "Stats"):
+        for k, v in o.cross.items():
+            self.cross[k] = self.cross.get(k, 0) + v
         for k in self.queries:
             self.queries[k] += o.queries[k]
         self.solver_s += o.solver_s
@@ -82,6 +85,7 @@ class Stats:
             "assertions_posed": self.checks,
             "assertions_discharged_unsat": self.checks_discharged,
             "reachability_twins_sat": self.twins,
+            "cvc5_cross_checked": dict(self.cross),
         }
 
     @staticmethod
@@ -97,6 +101,7 @@ class Stats:
         s.checks = d["assertions_posed"]
         s.checks_discharged = d["assertions_discharged_unsat"]
         s.twins = d["reachability_twins_sat"]
+        s.cross = dict(d.get("cvc5_cross_checked", {}))
         return s
 
 
@@ -111,9 +116,15 @@ class Engine:
         self.stats = Stats()
         self.max_paths = max_paths
         self.unsupported = []
+        import os as _os
+        try:
+            self.cross_budget = int(_os.environ.get("VERIF_CROSSCHECK", "2"))
+        except ValueError:
+            self.cross_budget = 2
+        self.cross_assert_budget = self.cross_budget
 
     # ------------------------------------------------------------------ solver facade
-    def solve(self, constraints, want_model=False, timeout_ms=None):
+    def solve(self, constraints, want_model=False, timeout_ms=None, is_assertion=False):
         """One fresh solver per query.  Returns ('sat', model) / ('unsat', None).
         Raises Inconclusive on unknown."""
         s = z3.SolverFor(self.logic)
@@ -127,11 +138,49 @@ class Engine:
         self.stats.max_query_s = max(self.stats.max_query_s, dt)
         rs = str(r)
         self.stats.queries[rs if rs in self.stats.queries else "unknown"] += 1
+        if rs in ("sat", "unsat") and dt < 5.0:
+            if is_assertion and self.cross_assert_budget > 0:
+                self.cross_assert_budget -= 1
+                self.cross_budget += 1
+                self._cross_check(s, rs)
+            elif self.cross_budget > 0:
+                self._cross_check(s, rs)
         if rs == "sat":
             return "sat", (s.model() if want_model else None)
         if rs == "unsat":
             return "unsat", None
         raise Inconclusive("solver returned %s (%s) after %.1fs" % (rs, s.reason_unknown(), dt))
+
+    def _cross_check(self, s, verdict):
+        """second opinion: the same query, exported as SMT-LIB, decided by cvc5 (a disagreement is INCONCLUSIVE)"""
+        self.cross_budget -= 1
+        try:
+            import cvc5
+
+            text = "(set-logic QF_UFBV)\n" + "\n".join(l for l in s.to_smt2().splitlines() if not l.startswith("(set-info")) 
+            slv = cvc5.Solver()
+            slv.setOption("tlimit-per", "10000")
+            ip = cvc5.InputParser(slv)
+            ip.setStringInput(cvc5.InputLanguage.SMT_LIB_2_6, text, "q")
+            sm = ip.getSymbolManager()
+            res = None
+            while True:
+                cmd = ip.nextCommand()
+                if cmd.isNull():
+                    break
+                out = str(cmd.invoke(slv, sm)).strip()
+                if out in ("sat", "unsat", "unknown"):
+                    res = out
+        except Exception as ex:  # noqa: BLE001
+            self.stats.cross["error"] = self.stats.cross.get("error", 0) + 1
+            return
+        if res == verdict:
+            self.stats.cross["agree"] = self.stats.cross.get("agree", 0) + 1
+        elif res in ("sat", "unsat"):
+            self.stats.cross["disagree"] = self.stats.cross.get("disagree", 0) + 1
+            raise Inconclusive("z3 says %s, cvc5 says %s on the same query" % (verdict, res))
+        else:
+            self.stats.cross["unknown"] = self.stats.cross.get("unknown", 0) + 1
 
     # ------------------------------------------------------------------ exploration
     def explore(self, fn):
@@ -228,7 +277,7 @@ class Path:
         """a valid fact (arithmetic lemma instance): only added to the queries when a model violates it"""
         self.lazy.append(fact)
 
-    def solve_lazy(self, extra, want_model=False):
+    def solve_lazy(self, extra, want_model=False, is_assertion=False):
         """solve pc /\ extra, activating lemma instances on demand (CEGAR over the lazy facts)"""
         while True:
             if self.lazy:
@@ -241,7 +290,7 @@ class Path:
                     self.lazy = []
                     continue
             else:
-                r, m = self.engine.solve(self.pc + list(extra), want_model=want_model)
+                r, m = self.engine.solve(self.pc + list(extra), want_model=want_model, is_assertion=is_assertion)
             if r != "sat" or not self.lazy:
                 return r, m
             hit = []
@@ -340,7 +389,7 @@ class Path:
     def refute(self, bad, want_model=True):
         """Ask for a model of pc /\\ bad.  Returns model or None (unsat)."""
         self.engine.stats.checks += 1
-        r, m = self.solve_lazy([bad], want_model=want_model)
+        r, m = self.solve_lazy([bad], want_model=want_model, is_assertion=True)
         if r == "unsat":
             self.engine.stats.checks_discharged += 1
             return None
